@@ -240,3 +240,4 @@ fire("C07", J, "        return Name(**{**value, \"name\": string_from_json(value
 fire("C08", "code_data/_constants.py", "        return frozenset(Counter(map(constant_key, value)).items())", "        return frozenset(map(constant_key, value))", "the original defect: multiplicity of equal keys lost (R08.4)")
 fire("C11", C, "        if args:\n            raise AssertionError(\"if this isn't a function, it shouldn't have args\")", "        assert not args, \"if this isn't a function, it shouldn't have args\"", "the original defect: guard vanishes under -O (R11.A)")
 fire("C03", B, "            if self._hash_fn(self._i_to_arg[i]) != self._hash_fn(arg):\n                raise AssertionError(f\"Two different args at index {i}\")", "            assert self._hash_fn(self._i_to_arg[i]) == self._hash_fn(arg), f\"Two different args at index {i}\"", "the original defect: collision guard vanishes under -O (R03.G)")
+fire("C10", L, "            and item.line_offset is not None\n            and (item.line_offset > 0) == (prev_item.line_offset > 0)\n", "", "the original defect: opposite-sign entry merged as a continuation (R10.1)")
